@@ -224,26 +224,126 @@ def make_env(case):
     return NodeEnv(case) if case.get("kind") == "node" else Env(case["env"])
 
 
-def exposes_private(value, candidates):
-    """Name of nothing / the underscore keys: is `value` a mapping whose underscore-named keys are instance
-    attributes of one of the candidate tree nodes (i.e. a node's __dict__ handed out wholesale)?"""
-    import collections.abc
-    if not isinstance(value, collections.abc.Mapping):
-        return None
-    try:
-        uk = sorted(k for k in value.keys() if isinstance(k, str) and k.startswith("_"))
-    except Exception:
-        return None
-    if not uk:
-        return None
-    for n in candidates:
+_IMMUTABLE_SCALARS = (type(None), bool, int, float, complex, str, bytes, range, type(Ellipsis), type(NotImplemented))
+_CODE_LIKE = (type, types.FunctionType, types.BuiltinFunctionType, types.MethodType, types.MethodWrapperType,
+              types.WrapperDescriptorType, types.MethodDescriptorType, types.ModuleType, property, staticmethod, classmethod)
+
+
+def _identity_meaningful(o, TreeNode):
+    """Is "`o` IS the object stored under a private attribute" evidence that private state was handed out?
+
+    No for objects that CPython shares between unrelated values or whose sharing cannot be observed: None, bools,
+    numbers, strings/bytes (interned / cached), tuples and frozensets (immutable: a reference cannot be told from a
+    copy, and `SequenceNode.children()` legitimately returns the very tuple kept in `_children`), classes, functions,
+    modules.  No for tree nodes: `parent`, `children()`, `key`, `value`, `matched_to` … are documented accessors whose
+    purpose is to return the node that is also stored in `_parent` / `_children`; a node is a handle whose own state is
+    only reachable through `get_member`, i.e. under the underscore rule.  Yes for everything else: the mutable private
+    CONTAINER itself (`_children` HashableCounter / dict / list, `_edit_modifiers` list, any other mutable object)."""
+    if isinstance(o, _IMMUTABLE_SCALARS) or isinstance(o, (tuple, frozenset)) or isinstance(o, _CODE_LIKE):
+        return False
+    if isinstance(o, TreeNode):
+        return False
+    return True
+
+
+class PrivIndex:
+    """The private state of a set of tree nodes: for every node N, the entries of N's instance `__dict__` whose name
+    starts with an underscore (read with `object.__getattribute__`, the tripwire is not involved), and `N.__dict__`
+    itself."""
+
+    def __init__(self, TreeNode):
+        self.TreeNode = TreeNode
+        self.nodes = {}         # id(node) -> node
+        self.names = {}         # underscore instance-attribute name -> [node, ...]
+        self.dicts = {}         # id(node.__dict__) -> node
+        self.objs = {}          # id(identity-meaningful private value) -> (node, name)
+
+    def add(self, n):
+        if id(n) in self.nodes or not isinstance(n, self.TreeNode):
+            return
+        self.nodes[id(n)] = n
         try:
             d = object.__getattribute__(n, "__dict__")
         except Exception:
+            return
+        self.dicts[id(d)] = n
+        for k, v in list(d.items()):
+            if isinstance(k, str) and k.startswith("_"):
+                self.names.setdefault(k, []).append(n)
+                if _identity_meaningful(v, self.TreeNode):
+                    self.objs.setdefault(id(v), (n, k))
+
+    def value_of(self, name, v):
+        """does some indexed node store exactly `v` under `name`?"""
+        for n in self.names.get(name, ()):
+            try:
+                if object.__getattribute__(n, "__dict__").get(name, self) is v:
+                    return True
+            except Exception:
+                pass
+        return False
+
+
+def find_exposures(value, index, max_objects=3000, max_depth=5):
+    """THE EXPOSURE RULE.  Walk everything reachable from `value` through mappings (keys and values), dict views
+    (`items()` / `keys()` / `values()`), sequences (lists, tuples, deques, …) and sets (iterators and generators are
+    not consumed: they are inspected when the expression materialises them — every operator result is checked, so
+    `list(from.iter_state())` is seen at the `list(...)` step), to depth `max_depth`; strings / bytes are not entered,
+    and tree nodes are not entered (see `_identity_meaningful`).
+    An exposure is
+      (I)   an object that IS (identity) the `__dict__` of an indexed node;                      -> ("dict", "__dict__")
+      (II)  an object that IS (identity) a value stored under an underscore attribute of an indexed node, for objects
+            whose identity is meaningful (`_identity_meaningful`: mutable non-node objects);     -> ("object", name)
+      (III) a NAMED PAIR (k, v) — a mapping item, or a 2-element tuple/list inside an iterable — whose k is a string
+            starting with "_" that is an underscore instance-attribute name of an indexed node: the private namespace
+            of a node handed out by name.  Whether v is the very value the node stores is reported ("pair" when it is,
+            "name" when only the name matches) but both count.                                    -> ("pair"|"name", k)
+    Returns the set of (kind, name).  Documents of the stream never use a node's private attribute names as keys, so
+    (III) cannot be triggered by document data (`to_obj()` results)."""
+    import collections, collections.abc
+    found = set()
+    seen = set()
+    todo = [(value, 0)]
+    budget = max_objects
+    TreeNode = index.TreeNode
+
+    def pair(k, v):
+        if isinstance(k, str) and k.startswith("_") and k in index.names:
+            found.add(("pair" if index.value_of(k, v) else "name", k))
+
+    while todo and budget > 0:
+        o, depth = todo.pop()
+        budget -= 1
+        if isinstance(o, (str, bytes, bytearray)) or isinstance(o, _IMMUTABLE_SCALARS):
             continue
-        if all(k in d for k in uk):
-            return uk
-    return None
+        if id(o) in seen:
+            continue
+        seen.add(id(o))
+        if id(o) in index.dicts and object.__getattribute__(index.dicts[id(o)], "__dict__") is o:
+            found.add(("dict", "__dict__"))
+        hit = index.objs.get(id(o))
+        if hit is not None:
+            try:
+                if object.__getattribute__(hit[0], "__dict__").get(hit[1]) is o:
+                    found.add(("object", hit[1]))
+            except Exception:
+                pass
+        if isinstance(o, TreeNode) or isinstance(o, _CODE_LIKE) or depth >= max_depth:
+            continue
+        try:
+            if isinstance(o, collections.abc.Mapping):
+                for k, v in list(o.items())[:400]:
+                    pair(k, v)
+                    todo.append((k, depth + 1))
+                    todo.append((v, depth + 1))
+            elif isinstance(o, (collections.abc.Sequence, collections.abc.Set, collections.abc.MappingView, collections.deque)):
+                for x in list(o)[:400]:
+                    if isinstance(x, (tuple, list)) and len(x) == 2:
+                        pair(x[0], x[1])
+                    todo.append((x, depth + 1))
+        except Exception:
+            continue
+    return found
 
 
 # ---------------------------------------------------------------------------------------------------------
@@ -930,24 +1030,63 @@ def _run_instrumented(case):
     log = {"reads": [], "names": [], "bad_names": [], "steps": [], "why": None, "exposed": []}
     nodes = getattr(env, "nodes", None)
 
+    index = None
+    ever_seen = set()
+    if nodes is not None:
+        index = PrivIndex(env.TreeNode)
+        for n in nodes:
+            index.add(n)
+
+    def shallow(o):
+        yield o
+        if isinstance(o, (tuple, list)):
+            yield from o[:50]
+
     def check_exposure(opname, args, r):
-        if nodes is None:
+        """Attribution of an exposure (see find_exposures) to the operator application that CREATED it: the result
+        exposes something that none of its operands already exposed.  An application that involves a tree node
+        directly (the receiver of the method / attribute / subscript, or an argument) is judged against its own
+        operands only, so a second exposing method in the same expression is reported under its own key; an
+        application on plain values (`dict(z)`, `z.copy()`, `list(zip(z.keys(), z.values()))`) can only pass on what
+        an earlier step exposed and is reported only for exposures that no earlier step of this evaluation showed."""
+        if index is None:
             return
-        cands = list(nodes)
         callee = args[0] if args else None
-        owner = getattr(callee, "__self__", None) if opname == "FUNCTION_CALL" else None
-        if owner is not None and isinstance(owner, env.TreeNode):
-            cands.insert(0, owner)
-        uk = exposes_private(r, cands)
-        if uk and any(set(uk) <= set(e["all"]) for e in log["exposed"]):
-            return      # a copy / view of a mapping that was already reported at its origin (dict(z), z.copy(), …)
-        if uk:
+        inputs = list(args)
+        if opname == "FUNCTION_CALL":
+            owner = getattr(callee, "__self__", None)
+            if owner is not None:
+                inputs.append(owner)
+            import functools
+            if type(callee) is functools.partial:
+                inputs += list(callee.args)
+        direct = False
+        for x in inputs:
+            for y in shallow(x):
+                if isinstance(y, env.TreeNode):
+                    direct = True
+                    index.add(y)
+        for y in shallow(r):
+            index.add(y)        # new nodes (copy(), make_edited()): their private containers are private too
+        got = find_exposures(r, index)
+        if not got:
+            return
+        derived = set()
+        for x in inputs:
+            derived |= find_exposures(x, index)
+        new = got - derived
+        if not direct:
+            new = new - ever_seen
+        ever_seen.update(got)
+        if new:
             how = opname
             if opname == "FUNCTION_CALL":
                 how = "method:" + str(getattr(callee, "__name__", type(callee).__name__))
             elif opname == "MEMBER_ACCESS" and len(args) == 2 and hasattr(args[1], "name"):
                 how = "attribute:" + str(args[1].name)
-            log["exposed"].append({"how": how, "keys": uk[:6], "all": uk})
+            if not any(e["how"] == how for e in log["exposed"]):
+                log["exposed"].append({"how": how, "keys": sorted({n for _, n in new})[:6],
+                                       "kinds": sorted({k for k, _ in new})})
 
     saved = {"get_member": E.get_member, "get_value": E.Expression.__dict__["get_value"],
              "exec": {op: op.execute for op in E.Operator}}
@@ -1212,7 +1351,7 @@ def impl(case):
     obs["reads"] = log["reads"]
     obs["names"] = log["names"]
     obs["bad_names"] = log["bad_names"]
-    obs["exposed"] = [{"how": e["how"], "keys": e["keys"]} for e in log["exposed"][:4]]
+    obs["exposed"] = [{"how": e["how"], "keys": e["keys"], "kinds": e.get("kinds", [])} for e in log["exposed"][:8]]
     obs["internal_reads"] = rec.internal
     obs["dict_reads"] = sorted(set(rec.dict_reads))
     obs["nsteps"] = len(log["steps"])
@@ -1318,9 +1457,11 @@ def monitor(case, obs):
             continue
         seen_e.add(key)
         hits.append({"prop": "C19", "key": key,
-                     "what": "evaluating %r obtained a mapping keyed by a tree node's private attribute names %s "
-                             "(a node's __dict__ handed out by its public API, no underscore access by the evaluator)" % (
-                                 case["expr"], json.dumps(ex["keys"]))})
+                     "what": "evaluating %r obtained private state of a tree node through its public API, no underscore "
+                             "access by the evaluator: private attribute names %s, exposure kinds %s (dict = the node's "
+                             "__dict__ itself, object = the private mutable container itself, pair = name paired with the "
+                             "stored value, name = private attribute name as a mapping key / first element of a pair)" % (
+                                 case["expr"], json.dumps(ex["keys"]), json.dumps(ex.get("kinds", [])))})
     for n in sorted(set(obs.get("bad_names", []))):
         hits.append({"prop": "C19", "key": "name-outside-whitelist",
                      "what": "evaluating %r resolved identifier %r which is neither a given variable nor a documented whitelisted builtin" % (case["expr"], n)})
@@ -1860,7 +2001,13 @@ NODE_EDGE = ["from", "to", "from == to", "from.total_size", "from.parent", "to.p
              "from.add_edit_modifier(len)", "from.calculate_total_size('')[0]", "from.all_children_are_leaves('')[0]",
              "from['a']", "from['a'] == to['a']", "from[0]", "len(from)", "from in to", "not from", "hash(from)", "str(from)", "sorted([from, to])",
              "from.print(1)", "from.print_parent_context(1, 2)", "from.init_args('')[0]", "from.make_key_value_pair_node(from, to)",
-             "from.from_dict(from)", "(from.__class__)", "from.copy_from(to)", "(from.editable_dict('')[0])['_parent']"]
+             "from.from_dict(from)", "(from.__class__)", "from.copy_from(to)", "(from.editable_dict('')[0])['_parent']",
+             # the same exposure passed on by plain-value operations must stay attributed to its origin (editable_dict) only
+             "dict((from.editable_dict('')[0]))", "(from.editable_dict('')[0]).items('')[0]", "list((from.editable_dict('')[0]).items('')[0])",
+             "list(zip((from.editable_dict('')[0]).keys('')[0], (from.editable_dict('')[0]).values('')[0]))",
+             "[(from.editable_dict('')[0]), (to.editable_dict('')[0])]", "(from.editable_dict('')[0]).copy('')[0]",
+             "tuple((to.editable_dict('')[0]).items('')[0])[0]", "[list(enumerate((from.editable_dict('')[0]).items('')[0]))]",
+             "(from.children('')[0])", "from.child_indexes", "[from.parent, from.children('')[0], from.to_obj('')[0]]"]
 
 
 PYOBJ_DOCS = [[["obj", {"a": 1, "b": [1, 2], "_hidden": "s"}], ["obj", {"a": 1, "b": [1, 3], "c": ["obj", {"n": None}]}]],
@@ -1878,26 +2025,141 @@ NODE_UNDER_EDGE = ["from['_parent']", "from['__dict__']", "to['_children']", "fr
                    "from.object['_parent']", "from.attr['__dict__']", "to.slice['_parent']", "from.args['_children']", "from.kwargs['__dict__']"]
 
 
-def node_api_names():
-    """public attribute names of every TreeNode subclass of the tree under test (so a new public method that hands
-    out private state is explored as soon as it exists)"""
+def _probe_trees():
+    """(builder, docs) of every tree the deterministic API sweep runs on"""
+    return [("json", d) for d in NODE_DOCS] + [("pyobj", d) for d in PYOBJ_DOCS] + [("ast", d) for d in AST_DOCS]
+
+
+def _api_dump():
+    """Runs in a subprocess whose `graphtage` is the tree under test (VERIF_REPO): for every node of every probe
+    tree, its class, the underscore names of its instance `__dict__`, the underscore DATA names of its class, and
+    every public name of its class with the defining function's qualified name and positional parameter counts."""
+    import inspect
+    out = []
+    for pi, (builder, docs) in enumerate(_probe_trees()):
+        try:
+            tree = NodeEnv.build(builder, docs[0])
+            nodes = list(tree.dfs())
+        except Exception:
+            continue
+        for i, n in enumerate(nodes[:15]):
+            cls = type(n)
+            unames = sorted(k for k in object.__getattribute__(n, "__dict__") if isinstance(k, str) and k.startswith("_"))
+            cnames = []
+            for k in dir(cls):
+                if k.startswith("_") and not (k.startswith("__") and k.endswith("__")):
+                    try:
+                        v = inspect.getattr_static(cls, k)
+                    except Exception:
+                        continue
+                    if not callable(v) and not isinstance(v, (staticmethod, classmethod, property)):
+                        cnames.append(k)
+            members = []
+            for k in dir(cls):
+                if k.startswith("_"):
+                    continue
+                try:
+                    sv = inspect.getattr_static(cls, k)
+                except Exception:
+                    continue
+                f = sv.__func__ if isinstance(sv, (staticmethod, classmethod)) else sv
+                if isinstance(sv, property) or not callable(f):
+                    q = getattr(getattr(sv, "fget", None), "__qualname__", None) or (cls.__name__ + "." + k)
+                    members.append([k, "attr", q, 0, 0])
+                    continue
+                q = getattr(f, "__qualname__", None) or (cls.__name__ + "." + k)
+                req, mx = 1, 2      # unknown signature: try one and two arguments
+                try:
+                    ps = list(inspect.signature(getattr(n, k)).parameters.values())
+                    pos = [p for p in ps if p.kind in (p.POSITIONAL_ONLY, p.POSITIONAL_OR_KEYWORD)]
+                    req = len([p for p in pos if p.default is p.empty])
+                    mx = len(pos) + (2 if any(p.kind == p.VAR_POSITIONAL for p in ps) else 0)
+                except Exception:
+                    pass
+                members.append([k, "call", q, req, mx])
+            out.append({"probe": pi, "sel": i, "cls": cls.__name__, "unames": unames, "cnames": sorted(cnames), "members": members})
+    print(json.dumps(out))
+
+
+_API_CACHE = {}
+
+
+def node_api():
+    """`_api_dump()` of the tree under test, obtained in a subprocess with the workers' PYTHONPATH (the engine process
+    may have the installed /repo imported, which is not necessarily the tree under test)."""
+    from .. import common as C
+    if C.REPO in _API_CACHE:
+        return _API_CACHE[C.REPO]
+    import subprocess
+    res = []
     try:
-        import graphtage
-        import graphtage.pydiff, graphtage.ast, graphtage.dataclasses  # noqa: F401  (registers the data-class node types)
-        from graphtage.tree import TreeNode
-        names = set()
-        todo = [TreeNode]
-        while todo:
-            c = todo.pop()
-            names.update(n for n in dir(c) if not n.startswith("_"))
-            todo.extend(c.__subclasses__())
-        return sorted(names)
+        p = subprocess.run([C.PY, "-c", "import harness.streams.expr as X; X._api_dump()"], capture_output=True, text=True,
+                           cwd=C.VERIF, env=C._worker_env(), timeout=120)
+        res = json.loads(p.stdout.strip().splitlines()[-1])
     except Exception:
-        return ["children", "dfs", "editable_dict", "parent", "to_obj", "total_size", "copy", "is_leaf"]
+        res = []
+    _API_CACHE[C.REPO] = res
+    return res
+
+
+def node_api_names():
+    names = sorted({m[0] for nd in node_api() for m in nd["members"]})
+    return names or ["children", "dfs", "editable_dict", "parent", "to_obj", "total_size", "copy", "is_leaf"]
+
+
+# `__class__` is not swept: isinstance() / type checks inside graphtage's own methods ask the runtime for `__class__` of
+# their operands, which the name-driven tripwire cannot tell from getattr(self, '__class__') (see the assumptions)
+STD_UNDER = ["__dict__"]
+
+
+def gen_api_sweep():
+    """DETERMINISTIC (no rng): every public member of every node class of the tree under test, identified by the
+    function that defines it, is
+      * read as an attribute (`from.name`),
+      * called without arguments when it accepts that (`(from.name('')[0])`),
+      * called with EVERY underscore attribute name (instance `__dict__` names of the receiver, underscore data names
+        of its class, `__dict__`) in each of its first two positional parameters, the other parameters
+        filled with plain values,
+    on a node that really has that private attribute whenever the probe trees contain one."""
+    probes = _probe_trees()
+    out, done = [], set()
+
+    def case(nd, e):
+        b, docs = probes[nd["probe"]]
+        c = {"kind": "node", "expr": e, "docs": docs, "sel": [nd["sel"], nd["sel"]]}
+        if b != "json":
+            c["builder"] = b
+        return c
+
+    api = node_api()
+    # nodes that own a name first: `from.get('_children')` should run on a node that has `_children`
+    for own in (True, False):
+        for nd in api:
+            unames = list(nd["unames"]) if own else list(nd["unames"]) + list(nd["cnames"]) + STD_UNDER
+            for nm, kind, qual, req, mx in nd["members"]:
+                if (qual, "") not in done:
+                    done.add((qual, ""))
+                    out.append(case(nd, "from.%s" % nm))
+                    if kind == "call" and req == 0:
+                        out.append(case(nd, "(from.%s('')[0])" % nm))
+                if kind != "call" or mx == 0:
+                    continue
+                for u in unames:
+                    if (qual, u) in done:
+                        continue
+                    done.add((qual, u))
+                    for p in range(min(mx, 2)):
+                        n = max(req, p + 1)
+                        if n > 4:
+                            continue
+                        args = ["0"] * n
+                        args[p] = "'%s'" % u
+                        out.append(case(nd, "from.%s(%s)" % (nm, ", ".join(args))))
+    return out
 
 
 def gen_nodes(rng, tier):
-    out = []
+    out = gen_api_sweep()
     api = node_api_names()
     def case(e, bind=None, builder=None):
         builder = builder or rng.choice(["json", "json", "pyobj", "ast", "ast"])
